@@ -271,6 +271,7 @@ def _e2e_strategy(tier, var):
         c = draw(grid_strategy(kind, tier))
         c["dtype"] = dtype
         c["reset"] = draw(st.booleans())
+        c["threads"] = draw(st.sampled_from([False, 1, 2]))
         c["flow"] = draw(gen.vector_field_spec(3, kinds=["poly", "noise", "mixed", "bumps", "constant"], max_mag_exp=3))
         c["prefill"] = draw(gen.vector_field_spec(3, kinds=["zero", "noise", "constant"], max_mag_exp=3))
         c["coeffs"] = [draw(gen.floats(-1e4, 1e4, 32)), draw(gen.floats(-1e2, 1e2, 32))]
@@ -305,7 +306,7 @@ def build_interaction(case, real_t):
     eul_f = gen.build_vector_field(case["prefill"][:dim], shape, real_t)
     kw = dict(eul_grid_forcing_field=eul_f, eul_grid_velocity_field=eul_u, virtual_boundary_stiffness_coeff=case["coeffs"][0],
               virtual_boundary_damping_coeff=case["coeffs"][1], dx=dx, grid_dim=dim, real_t=real_t,
-              enable_eul_grid_forcing_reset=case["reset"])
+              enable_eul_grid_forcing_reset=case["reset"], num_threads=case.get("threads", False))
     if kind.startswith("rod"):
         rod = bodies.make_rod(case["rod"])
         mid = rod.position_collection.mean(axis=1)
